@@ -17,6 +17,8 @@ Parts:  R rules on definite integrals (Simplify, FullSimplify, Linearity, Expand
         D symbolic differentiation agrees with an independent textbook derivative (z3 equality of the two functions)
         B interval bounds enclose all attained values (z3: no point of the box maps outside the returned interval)
         P print / parse round trip of every expression met
+        I side conditions of the table identities: whenever DefiniteIntegralIdentity uses an identity under a context, z3 must show
+          that the context entails the identity's conditions (this part does not need the integrand to be in the fragment)
 """
 import itertools
 import os
@@ -431,6 +433,8 @@ DERIV_EXTRA = ['INT t:[x,1]. t^2', 'INT t:[0,x]. t^2', 'INT t:[x,x^2]. t*a', 'IN
                'INT t:[a*x,1]. t^3', 'INT t:[1,x+a]. (t+x)^2', '(INT t:[x,1]. t) * (INT t:[0,x]. t^2)', 'INT t:[2*x,3*x]. 1']
 # roots / fractional powers of monomials with positive and negative constant factors (normalisation pulls constants out of roots)
 ROOTS = [t % c for c in ('-4', '4', '-9', '-2', '2', '-1', '1/4', '-1/9', '-8') for t in ('sqrt(%s*x)', '(%s*x)^(1/2)', '(%s*x)^(3/2)', 'sqrt(%s*x*a)', 'sqrt(%s*x^2)', '(%s*x)^(1/3)', '1/sqrt(%s*x)', 'x*sqrt(%s*x)')]
+# even / odd powers of expressions changing sign on the box (interval arithmetic for powers of mixed-sign intervals)
+SQUARES = ['x^2', '(x-1)^2', '(x+1/2)^2', 'x^4', 'x^3', '(x-1)^3', '(2*x-1)^2', 'x^2*a', '(x-a)^2', '1/(x^2+1)', '(x^2-1)^2', 'abs(x)^2', 'x^(-2)']
 # powers for ExpandPolynomial (square-and-multiply style slips show at exponents >= 5)
 EXPAND = ['(x+1)^%d', '(x-a)^%d', '(2*x+a)^%d * (x+1)', '(x^2+1)^%d']
 
@@ -806,7 +810,7 @@ def run_exprs(u, out):
     rnd = random.Random('c19e-%s-%s' % (seed, lo))
     twin = os.environ.get('VERIF_TWIN')
     from vlib.symx import call_with_budget, NonTermination
-    fixed = [_S['P'](t) for t in DERIV_EXTRA + ROOTS] if lo == 0 else []
+    fixed = [_S['P'](t) for t in DERIV_EXTRA + ROOTS + SQUARES] if lo == 0 else []
     for k in range(n + len(fixed)):
         e = fixed[k] if k < len(fixed) else gen_expr(rnd, 3, trans=(k % 2 == 1))      # every second expression uses transcendental functions
         rec = {'part': 'exprs', 'seed': seed, 'lo': lo, 'k': k}
@@ -871,14 +875,16 @@ def run_exprs(u, out):
                     out['inconclusive'] += 1
         # B: interval bounds over x in [l, h], a in [1, 2]
         out['evals'] += 1
-        box = rnd.choice([(0, 1), (1, 2), (-1, 1), (-2, -1), (Fraction(1, 2), 3)])
-        try:
-            bd = {E.Var('x'): interval.Interval.closed(E.Const(box[0]), E.Const(box[1])), E.Var('a'): interval.Interval.closed(E.Const(1), E.Const(2))}
-            iv = call_with_budget(interval.get_bounds_for_expr, 20.0, e, bd)
-        except (NonTermination, Exception):
-            iv = None
-        if iv is not None:
-            check_bounds(e, box, iv, out, dict(rec, what='bounds', box=[str(box[0]), str(box[1])]))
+        boxes = [(0, 1), (1, 2), (-1, 1), (-2, -1), (Fraction(1, 2), 3), (-3, 1), (-1, 2), (Fraction(-5, 2), Fraction(1, 2)), (0, Fraction(3, 2))]
+        rbox = rnd.choice(boxes)
+        for box in (boxes if k < len(fixed) else [rbox]):       # the fixed expressions are bounded over every box
+            try:
+                bd = {E.Var('x'): interval.Interval.closed(E.Const(box[0]), E.Const(box[1])), E.Var('a'): interval.Interval.closed(E.Const(1), E.Const(2))}
+                iv = call_with_budget(interval.get_bounds_for_expr, 20.0, e, bd)
+            except (NonTermination, Exception):
+                iv = None
+            if iv is not None:
+                check_bounds(e, box, iv, out, dict(rec, what='bounds', box=[str(box[0]), str(box[1])]))
         if len(out['cex']) >= 40:
             break
     out['samples'].append({'expression': str(e)})
@@ -935,10 +941,78 @@ def check_bounds(e, box, iv, out, rec):
             out['inconclusive'] += 1
 
 
+# ------------------------------------------------------------------ part I: side conditions of table identities
+
+def identity_cases():
+    """(lhs text, [condition texts]) of the definite-integral identities of the base book that carry side conditions."""
+    import json
+    d = json.load(open(os.path.join(os.environ.get('HOLPY_REPO', '/repo'), 'integral', 'examples', 'base.json')))
+    out = []
+    for it in d['content']:
+        t = it.get('expr') or it.get('eq')
+        if not t or not it.get('conds') or '=' not in t:
+            continue
+        lhs = t.split('=')[0].strip()
+        if lhs.startswith('(INT') and ':[' in lhs:
+            out.append((lhs, [c['cond'] if isinstance(c, dict) else c for c in it['conds']]))
+    return out
+
+
+def run_identities(u, out):
+    """For every sign pattern of the parameters: if DefiniteIntegralIdentity rewrites the identity's own left-hand side under a
+    context, the context must entail the identity's side conditions (z3, linear arithmetic over the parameters)."""
+    P, R = _S['P'], _S['rules']
+    from integral import context as C
+    twin = os.environ.get('VERIF_TWIN')
+    for ci, (lhs, conds) in enumerate(identity_cases()):
+        e = P(lhs)
+        cexprs = [P(c) for c in conds]
+        params = sorted({v for c in cexprs for v in c.get_vars()} - {e.var if e.is_integral() else ''})
+        for signs in itertools.product(('> 0', '< 0', None), repeat=len(params)):
+            ctx = C.Context()
+            ctx.load_book('base')
+            cc = []
+            for pn, sg in zip(params, signs):
+                if sg:
+                    ctx.add_condition('%s %s' % (pn, sg))
+                    cc.append(P('%s %s' % (pn, sg)))
+            out['evals'] += 1
+            st, res = apply_rule(R.DefiniteIntegralIdentity(), e, ctx)
+            if st != 'ok' or res == e or (res.is_integral() and res.body == e.body):
+                continue
+            if twin:
+                if not out['cex']:
+                    out['cex'].append({'kind': 'twin', 'part': 'ident'})
+                continue
+            out['keys'].add('ident|%s|%s' % (lhs, signs))
+            ev = ZEval()
+            try:
+                hyp = [ev.cond(c, {}) for c in cc]
+                goal = z3.And([ev.cond(c, {}) for c in cexprs])
+            except Unsup:
+                out['stats']['outside'] = out['stats'].get('outside', 0) + 1
+                continue
+            sv = z3.Solver()
+            sv.set('timeout', 4000)
+            sv.add(hyp + ev.side)
+            sv.add(z3.Not(goal))
+            r = str(sv.check())
+            out['stats']['ident_' + r] = out['stats'].get('ident_' + r, 0) + 1
+            if r == 'sat':
+                m = sv.model()
+                vals = {n: str(m.eval(p_, model_completion=True)) for n, p_ in ev.params.items()}
+                out['cex'].append({'kind': 'identity-used-outside-its-conditions', 'part': 'ident', 'case': ci, 'signs': list(signs), 'sig': 'ident|%s|%s' % (lhs, signs),
+                                   'detail': 'under the conditions [%s] DefiniteIntegralIdentity rewrites %s to %s although the identity requires [%s], which fails e.g. at %s' % (
+                                       ', '.join(str(c) for c in cc), e, res, ', '.join(conds), vals)})
+            elif r != 'unsat':
+                out['inconclusive'] += 1
+    out['samples'].append({'identities_with_conditions': [c[0] for c in identity_cases()]})
+
+
 # ------------------------------------------------------------------ units / replay
 
 def units(tier, seed):
-    us = []
+    us = [('ident', tier)]
     for bi in range(len(BOUNDS)):
         for ii in range(0, len(INTEGRANDS), 2):
             us.append(('rules', tier, bi, (ii, ii + 1)))
@@ -955,6 +1029,8 @@ def run_unit(u):
     out = {'evals': 0, 'keys': set(), 'cex': [], 'samples': [], 'inconclusive': 0, 'stats': {}}
     if u[0] == 'rules':
         run_rules(u, out)
+    elif u[0] == 'ident':
+        run_identities(u, out)
     else:
         run_exprs(u, out)
     out['keys'] = list(out['keys'])
@@ -965,6 +1041,10 @@ def replay(c):
     if c['kind'] == 'twin':
         return True, 'twin'
     out = {'evals': 0, 'keys': set(), 'cex': [], 'samples': [], 'inconclusive': 0, 'stats': {}}
+    if c['part'] == 'ident':
+        run_identities(('ident', 'quick'), out)
+        m = [x for x in out['cex'] if x.get('sig') == c.get('sig')]
+        return (True, m[0]['detail']) if m else (False, 'not reproduced')
     if c['part'] == 'rules':
         run_rules(('rules', 'thorough' if c.get('then') else 'quick', c['bounds'], (c['integrand'],) if 'integrand' in c else ('extra',)), out)
         m = [x for x in out['cex'] if x.get('sig') == c.get('sig') and x['kind'] == c['kind']]
